@@ -9,7 +9,7 @@
   (thread-level interleavings at mutex granularity; the `poll`-level schedules of a single-threaded
   executor are a special case, `poll_is_execution`).
 
-  Status on the current tree (a68466f): `Variant.repaired` is the code as it is — the hand-off
+  Status on the current tree (a68466f, 8b4f96e): `Variant.repaired` is the code as it is — the hand-off
   `transfer_link_member` is shared by `create` and `update`. `Variant.pinned` keeps the protocol as
   originally shipped, with its machine-checked hang witnesses (`no_stuck_counterexample_pinned`,
   `lost_wakeup_counterexample_pinned`). `single_owner`, `link_structure` and `terminates` hold for
@@ -18,6 +18,7 @@
   `foreign_link_write_through_counterexample`. tokio's `Notify` is modelled, not verified.
 -/
 import SyModel.Lemmas.HardlinkProps
+import SyModel.Lemmas.HardlinkLocal
 import SyModel.Lemmas.HardlinkUpdate
 namespace SyModel.Props.C13
 open SyModel SyModel.Hardlink
@@ -63,7 +64,8 @@ def Active (cfg : Cfg) (w : Nat) : Prop := (cfg.worker w).action ≠ .skip
 
 /-- For every path **created or updated** in the run — any mix of both, files below or at/above the
     delta gate, both variants, any fault plan, any schedule, any reachable state (in particular the
-    final one) — and any well-formed pre-run destination: two destination files whose transfer
+    final one) — and any pre-run destination, *whatever* names share an inode there (links left from
+    a source that has been regrouped since included): two destination files whose transfer
     returned `Ok` share an inode **iff** their sources do, and each has its source's content.
     (Before a68466f this held for created paths only.) -/
 theorem link_structure (cfg : Cfg) (hwf : WF cfg) (hdst : cfg.DstOk) (s : State)
@@ -95,9 +97,19 @@ theorem link_structure (cfg : Cfg) (hwf : WF cfg) (hdst : cfg.DstOk) (s : State)
       rw [h₁] at c₁; rw [h₂] at c₂
       simp only [Option.map_some, Option.some.injEq] at c₁ c₂
       refine ⟨f₁, f₂, rfl, rfl, ⟨?_, ?_⟩, c₁, c₂⟩
-      · -- names of one destination inode belong to one source inode
+      · -- every name of the inode of w₁'s root — w₁ itself for an ordinary file, the recorded first
+        -- path of its group otherwise — belongs to w₁'s source inode
         intro he
-        exact hd.refines w₁ w₂ f₁.ino (by rw [h₁]; rfl) (by rw [h₂, he]; rfl)
+        cases hl : (cfg.worker w₁).linked
+        · exact hd.refines w₁ w₂ f₁.ino (by rw [hok₁]; rfl) (Or.inl ⟨hl, ha₁⟩) (by rw [h₁]; rfl)
+            (by rw [h₂, he]; rfl)
+        · obtain ⟨p, hm⟩ := hd.okLinkedMap w₁ hl ha₁ hok₁
+          have e₁ := (hd.okLinkedDst w₁ p hl ha₁ hok₁ hm).1
+          obtain ⟨_, _, hpi, hpc⟩ := hi.mapDone _ p hm
+          have hroot : (s.pc p).rootPc = true := by rcases hpc with h | h <;> rw [h] <;> rfl
+          have := hd.refines p w₂ f₁.ino hroot (Or.inr (Or.inr (by rw [hpi]; exact hm)))
+            (by rw [← e₁, h₁]; rfl) (by rw [h₂, he]; rfl)
+          rw [← hpi]; exact this
       · -- members of one source group share the inode of the recorded first path
         intro he
         by_cases hne : w₁ = w₂
@@ -148,17 +160,46 @@ theorem link_structure_clean (cfg : Cfg) (hwf : WF cfg) (hc : Clean cfg) (hdst :
     case done r => rw [clean_all_ok cfg hc hdst s hr w r hp]
   exact link_structure cfg hwf hdst s hr w₁ w₂ hw₁ hw₂ ha₁ ha₂ (ok w₁ hw₁) (ok w₂ hw₂)
 
-/-- The skipped names are not damaged either: as long as the pre-run destination has no foreign
-    links, every destination file's content is the content of *some* name's source, namely its
-    own — names of one destination inode belong to one source inode, throughout the run. -/
+/-- Every name of the inode of a path transferred `Ok` — a path of this run that was transferred
+    too, is still being transferred, failed, or was **skipped** as up to date — belongs to the same
+    source inode and shows the same content: no destination inode is shared across source groups
+    with a transferred path, whatever links the pre-run destination had (8b4f96e). -/
 theorem no_cross_group_sharing (cfg : Cfg) (hdst : cfg.DstOk) (s : State) (hr : Reachable cfg s)
-    (q r : Nat) (fq fr : File) (hq : s.dst q = some fq) (hr' : s.dst r = some fr)
-    (he : fq.ino = fr.ino) : (cfg.worker q).inode = (cfg.worker r).inode ∧ fq.content = fr.content := by
+    (w r : Nat) (ha : Active cfg w) (hok : s.pc w = .done .ok)
+    (fw fr : File) (hq : s.dst w = some fw) (hr' : s.dst r = some fr)
+    (he : fw.ino = fr.ino) : (cfg.worker w).inode = (cfg.worker r).inode ∧ fw.content = fr.content := by
+  have hi := inv_reachable hr
   have hd := invD_reachable hdst hr
-  refine ⟨hd.refines q r fq.ino (by rw [hq]; rfl) (by rw [hr', he]; rfl), ?_⟩
-  have := hd.inoContent q r fq.ino (by rw [hq]; rfl) (by rw [hr', he]; rfl)
-  rw [hq, hr'] at this
-  simpa using this
+  refine ⟨?_, ?_⟩
+  · cases hl : (cfg.worker w).linked
+    · exact hd.refines w r fw.ino (by rw [hok]; rfl) (Or.inl ⟨hl, ha⟩) (by rw [hq]; rfl)
+        (by rw [hr', he]; rfl)
+    · obtain ⟨p, hm⟩ := hd.okLinkedMap w hl ha hok
+      have e₁ := (hd.okLinkedDst w p hl ha hok hm).1
+      obtain ⟨_, _, hpi, hpc⟩ := hi.mapDone _ p hm
+      have hroot : (s.pc p).rootPc = true := by rcases hpc with h | h <;> rw [h] <;> rfl
+      have := hd.refines p r fw.ino hroot (Or.inr (Or.inr (by rw [hpi]; exact hm)))
+        (by rw [← e₁, hq]; rfl) (by rw [hr', he]; rfl)
+      rw [← hpi]; exact this
+  · have := hd.inoContent w r fw.ino (by rw [hq]; rfl) (by rw [hr', he]; rfl)
+    rw [hq, hr'] at this
+    simpa using this
+
+/-- Once a worker has returned — in particular a **skipped**, up-to-date name, which has returned
+    before the run starts — nobody changes its destination path any more: not its inode, not its
+    content. (Before 8b4f96e an update could write through an inode it shared with such a name.) -/
+theorem returned_path_untouched (cfg : Cfg) (hdst : cfg.DstOk) (s s' : State) (sched : List Nat)
+    (hr : Reachable cfg s) (hex : Exec cfg s sched s') (q : Nat) (hdone : (s.pc q).isDone = true) :
+    s'.dst q = s.dst q :=
+  (exec_done_untouched (inv_reachable hr) (invD_reachable hdst hr) hex q hdone).1
+
+theorem skipped_names_untouched (cfg : Cfg) (hdst : cfg.DstOk) (s : State) (hr : Reachable cfg s)
+    (q : Nat) (hq : q < cfg.n) (hskip : (cfg.worker q).action = .skip) :
+    s.dst q = (cfg.worker q).dst0 := by
+  obtain ⟨sched, hex⟩ := hr
+  have h0 : ((init cfg).pc q).isDone = true := by simp [init, hskip, Pc.isDone]
+  have := (exec_done_untouched (inv_init cfg) (invD_init cfg hdst) hex q h0).1
+  rw [this]; simp [init, hq]
 
 /-! ### no reachable state is stuck (repaired protocol) -/
 
@@ -380,8 +421,8 @@ theorem lost_wakeup_repaired_proceeds :
     equal size and mtime is skipped altogether: the destination keeps the old structure;
   `C13/update-writes-through-foreign-link` (a destination inode shared by names of *different*
   source inodes was rewritten in place by the update of one of them when that source still had
-  `nlink > 1`) is fixed by 8b4f96e — `foreign_link_not_written_through` below; `link_structure`
-  still carries `Cfg.DstOk.noForeignLinks` as a hypothesis of its invariant.
+  `nlink > 1`) is fixed by 8b4f96e — `foreign_link_not_written_through` below, and in general
+  `link_structure` / `skipped_names_untouched`, which no longer need `noForeignLinks`.
   `C13/update-splits-link-group` (≥ 10 MiB members each replaced by its own temp file) is fixed
   by a68466f; `uncoordinated_update_splits_link_group` keeps the old behaviour's witness. -/
 
@@ -407,7 +448,7 @@ theorem new_link_not_joined_counterexample :
       joinFinal.pc 2 = .done .ok ∧
       (joinCfg.worker 0).inode = (joinCfg.worker 2).inode ∧
       joinFinal.dst 0 = some ⟨100, 7⟩ ∧ joinFinal.dst 2 = some ⟨2, 7⟩ := by
-  refine ⟨⟨?_, ?_, ?_, ?_⟩, fun _ _ => rfl,
+  refine ⟨⟨?_, ?_, ?_⟩, fun _ _ => rfl,
     ⟨_, exec_of_runMicro [2, 2, 2, 2, 2, 2, 2] (init joinCfg) rfl⟩, rfl, rfl, rfl, rfl, rfl⟩
   · intro q f _ h
     simp only [joinCfg] at h ⊢
@@ -417,7 +458,6 @@ theorem new_link_not_joined_counterexample :
     simp only [joinCfg] at hq hr
     split at hq <;> split at hr <;> cases hq <;> cases hr
     rfl
-  · intro q r fq fr _ _ _ _ _; rfl
   · intro q _ h
     simp only [joinCfg] at h
     split at h <;> cases h
@@ -485,6 +525,15 @@ theorem foreign_link_not_written_through :
       foreignFinal.dst 2 = some ⟨1, 2⟩ :=
   ⟨fun _ _ => rfl, ⟨_, exec_of_runMicro [1, 1, 1, 1, 1, 1, 2, 2, 2, 2] (init foreignCfg) rfl⟩,
     rfl, rfl, rfl, by decide, rfl, rfl, rfl, rfl⟩
+
+/-- the hypotheses of `link_structure` are met by a destination *with* foreign links -/
+theorem foreignCfg_dstOk : foreignCfg.DstOk :=
+  ⟨fun _ f _ h => by cases h; decide, fun _ _ _ _ _ _ hq hr _ => by cases hq; cases hr; rfl,
+   fun _ _ _ => rfl⟩
+
+example : foreignFinal.dst 0 = (foreignCfg.worker 0).dst0 :=
+  skipped_names_untouched foreignCfg foreignCfg_dstOk foreignFinal
+    ⟨_, exec_of_runMicro [1, 1, 1, 1, 1, 1, 2, 2, 2, 2] (init foreignCfg) rfl⟩ 0 (by decide) rfl
 
 /-- … and the witness of the old behaviour, kept so that the violation stays visible: an in-place
     rewrite (`writeThrough`) of name `1` while name `0` still shares its inode hands name `0` the
@@ -585,7 +634,7 @@ def upd (large : Bool) : Cfg where
 /-- `Cfg.DstOk` is satisfiable by a destination that really has a link group. -/
 example (large : Bool) : (upd large).DstOk :=
   ⟨fun _ f _ h => by cases h; simp [upd], fun _ _ _ _ _ _ hq hr _ => by cases hq; cases hr; rfl,
-   fun _ _ _ _ _ _ _ _ _ => rfl, fun _ _ _ => rfl⟩
+   fun _ _ _ => rfl⟩
 
 def updSched : List Nat := [0, 0, 1, 1, 1, 0, 0, 0, 0, 0, 1, 1, 1, 2, 2]
 
